@@ -95,12 +95,64 @@ def opBMain (st : DState) (args : List String) : String :=
     showBRun (Beeb.Basic.basicMain Beeb.Gen.tokTable Beeb.Gen.dialectOfName
       (fun p => (st.bfiles.find? (fun e => e.1 == p)).map (·.2)) st.bstdin av)
 
+def fmtName : Format → String
+  | .HDFS => "HDFS" | .DFS => "DFS" | .WDFS => "WDFS" | .OpusDDOS => "Opus"
+
+/-- `probe <hexpath> <hexname>` -/
+def opProbe (st : DState) (args : List String) : String :=
+  match args with
+  | [hp, hn] =>
+    match unhex hp, unhex hn with
+    | some p, some n =>
+      let m : Media := match hostFs st p with
+        | .raw secs _ => mediaOfArray secs
+        | .sparse k tbl => fun lba => if lba < k then some (tbl.getD lba (List.replicate 256 0)) else none
+        | _ => fun _ => none
+      match identifyImage m (bytesToString n) true with
+      | .ok (some ff) =>
+        let fs := match identifyFileSystem m ff.geom ff.interleaved true with
+          | .ok (some f) => fmtName f
+          | _ => "none"
+        let enc := match ff.geom.encoding with | some .MFM => "MFM" | some .FM => "FM" | none => "?"
+        s!"fmt={fs} c={ff.geom.cylinders} h={ff.geom.heads} s={ff.geom.sectors} enc={enc} il={showBool ff.interleaved}"
+      | .ok none => "none"
+      | .err _ => "exc"
+      | .abort s => s!"abort {s}"
+    | _, _ => "bad-op"
+  | _ => "bad-op"
+
+def opEre (args : List String) : String :=
+  match args with
+  | [hp, hs] =>
+    match unhex hp, unhex hs with
+    | some p, some s =>
+      match parseEre p with
+      | none => "unsupported"
+      | some items => showBool (matchItems items (s.takeWhile (· != 0)))
+    | _, _ => "bad-op"
+  | _ => "bad-op"
+
+def opAfsp (args : List String) : String :=
+  match args with
+  | [d, sv, dh, hw, d2, sv2, dh2, hn] =>
+    match d.toNat?, d2.toNat?, unhex dh, unhex hw, unhex dh2, unhex hn with
+    | some dn, some dn2, some [dir], some w, some [dir2], some n =>
+      let mk (k : Nat) (s : String) : VolSel := { surface := k, subvol := if s == "-" then none else (s.toList.head?.map Char.toNat) }
+      match Matcher.make (mk dn sv) dir w with
+      | none => "invalid"
+      | some mt => s!"{showBool (mt.accepts (mk dn2 sv2) dir2 n)} vol={bytesToString mt.vol.toStr}"
+    | _, _, _, _, _, _ => "bad-op"
+  | _ => "bad-op"
+
 def dispatch (st : DState) (line : String) : String :=
   match line.trimAscii.toString.splitOn " " with
   | "infoline" :: args => opInfoLine args
   | "fields" :: args => opFields args
   | "main" :: args => opMain st args
   | "bmain" :: args => opBMain st args
+  | "probe" :: args => opProbe st args
+  | "ere" :: args => opEre args
+  | "afsp" :: args => opAfsp args
   | _ => "bad-op"
 
 /-- stateful ops: `file <hexpath> raw|gzbad|missing <host path of (inflated) content>`, `clearfiles` -/
